@@ -14,6 +14,13 @@ from .interp import Interp
 MAX_PATHS = 4000
 
 
+def thorough():
+    """contract modules may enumerate a larger bound (more ranks / shapes) in the thorough tier"""
+    import os
+
+    return os.environ.get("PYVC_TIER") == "thorough"
+
+
 class Task:
     """name: obligation-name prefix; props: property ids served; targets: qualnames whose
     source is under contract (sha recorded); body(it): drives the interpreter."""
